@@ -438,7 +438,7 @@ CARRIERS = ("dict", "dict", "odict", "yaml", "json", "stringio", "yaml_path", "j
 WINDOW_FORMS = ("iso", "datetime", "timestamp", "dt64")
 
 
-def gen_config(rng, tbl, max_ctx=4, max_tests=3, window_layout=None, fault_kinds=(), max_faults=0):
+def gen_config(rng, tbl, max_ctx=4, max_tests=3, window_layout=None, fault_kinds=(), max_faults=0, axis_streams_p=0.12):
     sids = list(tbl["cols"])
     k = rng.randint(1, max_ctx)
     wins = gen_windows(rng, tbl["times"], k, window_layout)
@@ -453,6 +453,11 @@ def gen_config(rng, tbl, max_ctx=4, max_tests=3, window_layout=None, fault_kinds
                 e = gen_healthy_entry(rng, sid, tbl, exclude={(m, t) for (s, m, t) in used if s == sid})
                 used.add((sid, e["module"], e["test"]))
                 entries.append(e)
+        if tbl.get("z") is not None and axis_streams_p and rng.chance(axis_streams_p):
+            # a test configured on a column that is also an axis of the stream (QC of the depth record itself)
+            zname = (tbl.get("names") or {}).get("z", "z")
+            mod, test, gen = rng.pick((("qartod", "gross_range_test", p_gross_range), ("qartod", "spike_test", p_spike), ("qartod", "sim_probe", p_probe), ("qartod", "climatology_test", p_clim)))
+            entries.insert(rng.randint(0, len(entries)), {"sid": zname, "module": mod, "test": test, "params": gen(rng), "role": "healthy"})
         ctx = {"window": w, "entries": entries}
         if rng.chance(0.15):
             # a GeoJSON region: parsed into the Context but, as documented, it does not subset anything
